@@ -22,7 +22,7 @@ RULE = (
     "(rule, configuration, values) hashes"
 )
 REQUIRED_OBS = ["law1_checked", "law2_checked", "converter_pairs_checked", "reach:Rule._compile_builder", "reach:MapAdapter.build",
-                "mode:plain", "mode:subdomain", "mode:host", "mode:submount", "mode:subdomainfactory", "mode:default_subdomain", "with_defaults"]
+                "law1_checked_through_an_environ", "mode:plain", "mode:subdomain", "mode:host", "mode:submount", "mode:subdomainfactory", "mode:default_subdomain", "with_defaults"]
 ASSUMPTIONS = [
     "values exclude C0 controls and DEL (the path converter's regex does not cross a newline; the property speaks of Unicode, spaces and URL-reserved characters)",
     "path values have no empty segment and do not start or end with '/'",
